@@ -78,7 +78,7 @@ def COVER_FLAGS():
     """Development aid (VERIF_COVER=1 + GOCOVERDIR=<dir>): the drivers are built with coverage
     instrumentation of heimdall's packages, to see which code of the anchored files a check executes."""
     if os.environ.get("VERIF_COVER"):
-        return ["-cover", "-coverpkg=github.com/dadrus/heimdall/internal/...,github.com/dadrus/heimdall/verifharness/..."]
+        return ["-cover", "-covermode=atomic", "-coverpkg=github.com/dadrus/heimdall/internal/...,github.com/dadrus/heimdall/verifharness/..."]
     return []
 
 
